@@ -644,7 +644,10 @@ class MessageManager(ClientLike):
             header (MessageHeader): Message header to send
             payload (Union[bytes, MessageData]): Message data to send
         """
-        for module in self.logger_modules:
+        # iterate over a snapshot: a failing logger is removed from the set inside the loop
+        for module in list(self.logger_modules):
+            if module not in self.logger_modules:
+                continue
             if module.conn not in self.wlist:
                 # Block until logger is ready
                 select.select([], [module.conn], [], None)
